@@ -157,7 +157,6 @@ func (c *context) URLPath(name string, pairs ...string) string {
 }
 
 func (c *context) Next() {
-	c.index++
 	c.run()
 }
 
@@ -203,17 +202,20 @@ func (c *context) run() {
 			h = c.handlers[c.index]
 		}
 
+		// Advance before invoking so that the index always points to the next handler
+		// to be started, no matter how many times the handler calls Next.
+		index := c.index
+		c.index++
+
 		if h == nil {
-			c.index++
 			return
 		}
 
 		vals, err := c.Invoke(h)
 		if err != nil {
 			panic(fmt.Sprintf("unable to invoke the %s handler [%s:%T]: %v",
-				ordinalize(c.index), runtime.FuncForPC(reflect.ValueOf(h).Pointer()).Name(), h, err))
+				ordinalize(index), runtime.FuncForPC(reflect.ValueOf(h).Pointer()).Name(), h, err))
 		}
-		c.index++
 
 		// If the handler returned something, write it to the response.
 		if len(vals) > 0 {
